@@ -22,8 +22,6 @@ def to_smt2(hyps, goal):
     s = z3.Solver()
     for h in hyps:
         s.add(h)
-    for a in PI_AXIOMS:
-        s.add(a)
     s.add(z3.Not(goal))
     return s.to_smt2()
 
